@@ -12,7 +12,7 @@ import sqlite3
 
 import common
 
-GEN_DEPS = ()
+GEN_DEPS = ("gen_idmanager",)
 ASSUMPTIONS = [
     "upload timestamps handed to one database are strictly increasing (the property quantifies over clock *advances*; equal timestamps cannot be ordered by the table)",
     "'other images since then' = distinct other ids whose latest upload to that terminal is later (what a terminal that replaces an image when its id is re-sent holds)",
